@@ -14,7 +14,7 @@ from .prov import var_table
 
 RULE = 'USEDSTATES'
 FLOOR = 4
-ANCHORS = ['ExplicitTreeAutCore::GetUsedStates']
+ANCHORS = ['ExplicitTreeAutCore::GetUsedStates', 'ExplicitTreeAutCore::BuildStateIndex']
 
 
 def sources(unit, fn, e, vt, depth=0, seen=None):
@@ -56,6 +56,40 @@ def classify(src):
     return roles
 
 
+def run_index(unit, fn, em, vt):
+    """BuildStateIndex numbers every state the automaton mentions: the index functor (first parameter) is applied,
+    unconditionally, to rule parents, rule children and final states — a final state without rules that is not indexed
+    gets its number only later (beyond the count handed to the simulation) or none at all"""
+    if not fn.params:
+        return
+    idx = fn.params[0]['d']
+    got = {}
+    for n in fn.walk(lambdas=False):
+        if n['k'] == 'CXXOperatorCallExpr' and n.get('op') == '()' and n.get('args') and (strip(n['args'][0]) or {}).get('d') == idx and len(n['args']) > 1:
+            roles = classify(sources(unit, fn, n['args'][1], vt))
+            cond = False
+            p = n.get('_p')
+            while p is not None and p is not fn.body:
+                if p['k'] in ('IfStmt', 'ConditionalOperator', 'SwitchStmt'):
+                    cond = True
+                p = p.get('_p')
+            txt = unit.text(n, 60)
+            if not roles:
+                em.unknown(n, txt, 'source of the indexed value not classified', 'index')
+                continue
+            for r in roles:
+                if not cond:
+                    got.setdefault(r, n)
+            em.ok(n, txt, 'indexes ' + '/'.join(sorted(roles)), 'index')
+    for r, why in (('parent', 'a state that only occurs as the parent of rules is not numbered'),
+                   ('children', 'a state that only occurs as a child is not numbered'),
+                   ('final', 'a final state without rules is not numbered: the state count handed to the simulation is too small and the state is translated late or not at all')):
+        if r in got:
+            em.ok(got[r], 'BuildStateIndex: ' + r, 'every %s state is indexed' % r, 'index-' + r)
+        else:
+            em.violation(fn, 'BuildStateIndex: ' + r, 'the index functor is never applied unconditionally to the %s states: %s' % (r, why), 'index-' + r)
+
+
 def run(unit, em):
     for fn in unit.functions:
         short = fn.q.replace('VATA::', '')
@@ -63,6 +97,9 @@ def run(unit, em):
             continue
         em.anchor(fn, short)
         vt = var_table(fn)
+        if short.endswith('BuildStateIndex'):
+            run_index(unit, fn, em, vt)
+            continue
         rets = [n for n in fn.walk(lambdas=False) if n['k'] == 'ReturnStmt']
         resd = None
         for r in rets:
